@@ -47,9 +47,9 @@ def validateExitPlanes (spec : Option (Int ⊕ List Int)) (n : Nat) : Except Str
   match spec with
   | none => .ok [(n : Int) - 1]
   | some (.inr t) =>
-    -- explicit tuples must be strictly increasing and start at -1 (entrance plane) or later; indices beyond the last slice are
-    -- accepted (a slice window carries the exit planes of the full stack)
-    if !(strictlyIncreasing t) || (match t with | [] => false | a :: _ => decide (a < -1)) then .error "value_error" else .ok t
+    -- explicit tuples must be strictly increasing slice indices between -1 (entrance plane) and n - 1
+    if !(strictlyIncreasing t) || (match t with | [] => false | a :: _ => decide (a < -1))
+        || (match t.getLast? with | none => false | some l => decide (l ≥ (n : Int))) then .error "value_error" else .ok t
   | some (.inl e) =>
     if e ≥ (n : Int) then .ok [(n : Int) - 1]
     else if e = 0 then .error "value_error"            -- range() arg 3 must not be zero
@@ -144,6 +144,18 @@ def genCrystal {V T} (uts : List T) (flags : List Bool) (reps : Nat) (draw : Nat
   let last : Int := last.getD ((uts.length * reps : Nat) : Int)
   crystalOuter uts flags draw unit tile first last (List.range reps) 0
 
+/-- `_exit_planes_of_selection(self.exit_planes, range(n)[first:last], n)` followed by the array object's own
+`_validate_exit_planes`: the planes inside the window shifted to it, the entrance plane kept when the window starts at slice 0,
+the last slice of the window when nothing (or nothing increasing) is left.  `exit_planes[0]` of an empty tuple → IndexError. -/
+def windowExit (eps : List Int) (n first : Nat) (last : Int) (width : Int) : Except String (List Int) :=
+  match eps with
+  | [] => .error "index_error"
+  | e0 :: _ =>
+    let stop : Nat := min (if last < 0 then (last + n).toNat else last.toNat) n
+    let inside := (eps.filter fun p => decide ((first : Int) ≤ p) && decide (p < (stop : Int))).map (· - (first : Int))
+    let planes := if e0 = -1 ∧ first < stop ∧ first = 0 then (-1) :: inside else inside
+    .ok (if planes.isEmpty || !(strictlyIncreasing planes) then [width - 1] else planes)
+
 /-- result of `build`: one row per ensemble member (a single row without ensemble axes); `none` marks an entry of
 the zero-initialised array that was never written -/
 structure Built (V T : Type) where
@@ -175,8 +187,9 @@ def buildEager {V T} (ts : List T) (eps : List Int) (blocks : List Nat)
   let width := (eagerWidth first last).toNat
   let rows ← blocks.mapM (eagerRow width slicesOf)
   let th := pySlice ts first last
+  let planes ← windowExit eps ts.length first last (eagerWidth first last)
   if th.length ≠ width then throw "runtime_error"    -- _validate_slice_thickness(num_slices=array.shape[-3])
-  return ⟨rows, th, eps⟩
+  return ⟨rows, th, planes⟩
 
 /-- one task of the lazy build (`_wrap_build_potential`): the eager build of the one-member potential of block `c`;
 its single row is what dask places at position `c`. -/
@@ -195,8 +208,9 @@ def buildLazy {V T} (ts : List T) (eps : List Int) (blocks : List Nat)
   let th := pySlice ts first lastI
   -- the output array object (declared chunk shape `… + (last_slice - first_slice,) + gpts`: generated `lazyWidth`) is
   -- validated before anything is computed
+  let planes ← windowExit eps ts.length first lastI (lazyWidth first lastI)
   if (th.length : Int) ≠ lazyWidth first lastI then throw "runtime_error"
   let rows ← blocks.mapM (lazyBlockRow ts eps slicesOf first last)
-  return ⟨rows, th, eps⟩
+  return ⟨rows, th, planes⟩
 
 end AbtemVerif.Build
